@@ -173,14 +173,26 @@ class PosePath3D(object):
             self._poses_se3 = [np.dot(p, t) for p in self.poses_se3]
         elif right_mul and propagate:
             # Transform each pose and propagate resulting drift to the next.
+            # The relative motions are chained over the whole path: they are
+            # computed with the exact inverse (the transposed rotation is not
+            # the inverse of a rotation block that is only orthonormal to
+            # e.g. 1e-7, like in text files) and each new pose is put back
+            # onto SE(3), otherwise the deviations multiply along the chain.
             ids = np.arange(0, self.num_poses, 1, dtype=int)
             rel_poses = [
-                lie.relative_se3(self.poses_se3[i], self.poses_se3[j]).dot(t)
+                np.linalg.solve(self.poses_se3[i], self.poses_se3[j]).dot(t)
                 for i, j in zip(ids, ids[1:])
             ]
+            rigid = lie.is_se3(t)
             self._poses_se3 = [self.poses_se3[0]]
             for i, j in zip(ids[:-1], ids):
-                self._poses_se3.append(self._poses_se3[j].dot(rel_poses[i]))
+                pose = self._poses_se3[j].dot(rel_poses[i])
+                if rigid:
+                    u, _, v = np.linalg.svd(pose[:3, :3])
+                    if np.linalg.det(u) * np.linalg.det(v) < 0.0:
+                        u[:, -1] *= -1.0
+                    pose = lie.se3(u.dot(v), pose[:3, 3])
+                self._poses_se3.append(pose)
         else:
             self._poses_se3 = [np.dot(t, p) for p in self.poses_se3]
         self._positions_xyz, self._orientations_quat_wxyz \
